@@ -89,7 +89,21 @@ def mem_holder_kind(e, m):
     return 'top'
 
 
-def probe_reads(sh, e, seedtag):
+def probe_reads(sh, e, seedtag, flagged=True):
+    if flagged:
+        # the same tree with its identifiers created as terminal symbols (is_term=True, like the init_* symbols of the x86
+        # machine): an attribute that equality ignores must not change what a term reads
+        try:
+            from vf.checks.c15 import ref_subst
+            ex, mi = exprgen.M()
+            d = {}
+            for t in exprgen.subterms(e):
+                if t.__class__.__name__ == 'ExprId':
+                    d[exprgen.canon(t)] = ex.ExprId(t.name, t.size, is_term=True, is_reg=t.is_reg)
+            if d:
+                probe_reads(sh, ref_subst(e, d), (seedtag, 'term'), flagged=False)
+        except irsem.IllFormed:
+            pass
     c = exprgen.canon(e)
     is_aff = e.__class__.__name__ == 'ExprAff'
     val_e = e.src if is_aff else e
